@@ -116,7 +116,21 @@ def _stable(text):
     return hashlib.sha1(text.encode()).hexdigest()[:12]
 
 
-inv_of = {}        # atom index of inv(x) -> atom index of x
+# atom index of inv(x) -> atom index of x, PER atom table (indices of different tables are unrelated; a single
+# global table made x*inv(y) cancel whenever two tables happened to number x and y alike)
+_INV_TABLES = {}   # id(atoms) -> (atoms, {inv index: index})
+
+
+def _inv_table(atoms):
+    ent = _INV_TABLES.get(id(atoms))
+    if ent is None or ent[0] is not atoms:
+        ent = (atoms, {})
+        _INV_TABLES[id(atoms)] = ent
+        if len(_INV_TABLES) > 4096:
+            for k in list(_INV_TABLES)[:2048]:
+                if k != id(atoms):
+                    del _INV_TABLES[k]
+    return ent[1]
 _ctx = {"pairs": []}   # (sin index, cos index) pairs known while converting (set by decide)
 
 
@@ -139,7 +153,7 @@ def cancel_inverses(p):
     out = Poly()
     for m, c in p.t.items():
         d = dict(m)
-        for iv, v in inv_of.items():
+        for iv, v in _ctx.get("inv", {}).items():
             if iv in d and v in d:
                 k = min(d[iv], d[v])
                 d[iv] -= k
@@ -155,6 +169,7 @@ def cancel_inverses(p):
 def to_poly(e, atoms, limit=30000):
     """z3 real/int term -> Poly; atoms: dict sexpr -> (index, term)."""
     memo = {}
+    _ctx["inv"] = _inv_table(atoms)      # cancel_inverses works on the table of the most recent conversion
 
     def walk(e):
         k = e.get_id()
@@ -199,7 +214,7 @@ def to_poly(e, atoms, limit=30000):
                             # inverse gets the same constant in every conversion (terms built from
                             # normal forms are converted again with a fresh atom table)
                             atoms[key] = (len(atoms), z3.Real("inv!" + _stable(_atom_name(atoms, v))))
-                            inv_of[atoms[key][0]] = v
+                            _inv_table(atoms)[atoms[key][0]] = v
                         r = r * Poly({((atoms[key][0], e_),): Fraction(1)})
                 else:
                     canon = repr(sorted((sorted((_atom_name(atoms, v), e_) for v, e_ in mm), str(cc))
